@@ -74,6 +74,8 @@ pub async fn run_suite(suite: &str, seed: u64, cases: usize) -> (String, String)
         match suite {
             "kv" => gen_kv(&mut sim, &mut crng, &mut stats, &name).await,
             "proc" => gen_proc(&mut sim, &mut crng, &mut stats, &name).await,
+            "apply" => gen_apply(&mut sim, &mut crng, &mut stats, &name).await,
+            "catchup" => gen_catchup(&mut sim, &mut crng, &mut stats, &name).await,
             other => panic!("unknown suite {other}"),
         }
         stats.bump("cases");
@@ -289,6 +291,190 @@ async fn gen_proc(sim: &mut Sim, rng: &mut Prng, stats: &mut Stats, name: &str) 
         while pool.len() > 24 {
             let i = rng.below(pool.len() as u64) as usize;
             pool.swap_remove(i);
+        }
+    }
+}
+
+// ------------------------------------------------------------------------------------------
+// crafted messages (independent encoder)
+use crate::util::{put_digest, put_header, put_stream, WId, WOp};
+
+fn wid_of(id: &ChitchatId) -> WId {
+    let (ipv, ip) = match id.gossip_advertise_addr.ip() {
+        std::net::IpAddr::V4(a) => (4u8, u32::from(a) as u128),
+        std::net::IpAddr::V6(a) => (6u8, u128::from(a)),
+    };
+    WId { name: id.node_id.as_bytes().to_vec(), generation: id.generation_id, ipv, ip, port: id.gossip_advertise_addr.port() }
+}
+
+fn syn_bytes(cluster: &str, entries: &[(WId, u64, u64, u64)]) -> Vec<u8> {
+    let mut out = Vec::new();
+    put_header(&mut out, 0);
+    put_digest(&mut out, entries);
+    crate::util::put_str(&mut out, cluster.as_bytes());
+    out
+}
+
+fn ack_bytes(ops: &[WOp], block: usize, compress: bool) -> Vec<u8> {
+    let mut out = Vec::new();
+    put_header(&mut out, 2);
+    put_stream(&mut out, ops, block, compress);
+    out
+}
+
+fn synack_bytes(entries: &[(WId, u64, u64, u64)], ops: &[WOp], block: usize, compress: bool) -> Vec<u8> {
+    let mut out = Vec::new();
+    put_header(&mut out, 1);
+    put_digest(&mut out, entries);
+    put_stream(&mut out, ops, block, compress);
+    out
+}
+
+// S-apply: one receiver, phantom members, crafted deltas over a small exhaustive-ish scope.
+pub async fn gen_apply(sim: &mut Sim, rng: &mut Prng, stats: &mut Stats, name: &str) {
+    sim.start_case(name);
+    let mut spec = NodeSpec::simple(mk_id("r", 0, 3000));
+    spec.kv_grace_ns = 1_000;
+    spec.has_cb = rng.chance(4, 5);
+    sim.join(spec);
+    let members = [mk_id("x", 0, 3001), mk_id("y", 1, 3002)];
+    let wids: Vec<WId> = members.iter().map(wid_of).collect();
+    // make the members known (copies are created by the digest heartbeats)
+    let entries: Vec<(WId, u64, u64, u64)> = wids.iter().map(|w| (w.clone(), 3, 0, 0)).collect();
+    sim.deliver(0, &syn_bytes("c", &entries));
+    let keys = ["a", "b", "ab"];
+    let hostile = rng.chance(1, 4);
+    let ndeltas = rng.range(1, 7);
+    for _ in 0..ndeltas {
+        if sim.dead_case {
+            break;
+        }
+        let mut ops = Vec::new();
+        let nmembers = if rng.chance(1, 4) { 2 } else { 1 };
+        let mut order: Vec<usize> = vec![0, 1];
+        if rng.chance(1, 2) {
+            order.swap(0, 1);
+        }
+        for &mi in order.iter().take(nmembers) {
+            let gc = rng.below(8);
+            let from = if rng.chance(1, 2) { 0 } else { rng.below(8) };
+            ops.push(WOp::Node { id: wids[mi].clone(), gc, from });
+            let nkv = rng.below(4);
+            let mut ver = if hostile && rng.chance(1, 3) { rng.below(8) } else { from + rng.below(3) };
+            let mut last = 0;
+            for _ in 0..nkv {
+                ver += if hostile && rng.chance(1, 5) { 0 } else { 1 + rng.below(2) };
+                let status = if hostile && rng.chance(1, 10) { 3 + rng.below(3) as u8 } else { rng.below(3) as u8 };
+                let key = *rng.pick(&keys);
+                let value = if status == 1 { "" } else { *rng.pick(VALUES) };
+                ops.push(WOp::Kv { key: key.as_bytes().to_vec(), value: value.as_bytes().to_vec(), version: ver, status });
+                last = ver;
+            }
+            if nkv == 0 {
+                if rng.chance(3, 4) {
+                    ops.push(WOp::SetMax(rng.below(9)));
+                    stats.bump("delta_setmax_only");
+                }
+            } else if hostile && rng.chance(1, 2) {
+                // SetMaxVersion after key-values: above, equal to or below the last version
+                let mv = match rng.below(3) { 0 => last + 1, 1 => last, _ => last.saturating_sub(1 + rng.below(3)) };
+                ops.push(WOp::SetMax(mv));
+                stats.bump("delta_setmax_after_kvs");
+            }
+        }
+        if hostile && rng.chance(1, 6) {
+            // key-value or SetMaxVersion without member header, duplicate header
+            match rng.below(3) {
+                0 => ops.insert(0, WOp::SetMax(3)),
+                1 => ops.insert(0, WOp::Kv { key: b"a".to_vec(), value: b"x".to_vec(), version: 1, status: 0 }),
+                _ => {
+                    let first = ops[0].clone();
+                    ops.push(first);
+                }
+            }
+            stats.bump("delta_bad_grammar");
+        }
+        let block = *rng.pick(&[16384usize, 7, 30, 64]);
+        let bytes = if rng.chance(1, 5) {
+            let entries: Vec<(WId, u64, u64, u64)> = wids.iter().map(|w| (w.clone(), rng.below(6), rng.below(8), rng.below(8))).collect();
+            synack_bytes(&entries, &ops, block, rng.chance(1, 2))
+        } else {
+            ack_bytes(&ops, block, rng.chance(1, 2))
+        };
+        sim.decode(&bytes);
+        sim.deliver(0, &bytes);
+        stats.bump("crafted_deltas");
+        if rng.chance(1, 4) {
+            sim.tick(*rng.pick(&[1u64, 999, 1000, 1001])).await;
+            sim.gc(0);
+        }
+    }
+}
+
+// S-catchup: reset_node_state_if_update with arbitrary arguments, interleaved with gossip.
+pub async fn gen_catchup(sim: &mut Sim, rng: &mut Prng, stats: &mut Stats, name: &str) {
+    sim.start_case(name);
+    let dead_grace: u64 = 3_906_250_000u64 * 4;
+    for i in 0..2 {
+        let mut spec = NodeSpec::simple(mk_id(["a", "b"][i], 0, 4000 + i as u16));
+        spec.kv_grace_ns = 1_000;
+        spec.dead_grace_ns = dead_grace;
+        sim.join(spec);
+    }
+    let ids = [mk_id("a", 0, 4000), mk_id("b", 0, 4001), mk_id("ghost", 2, 4002)];
+    let keys = ["a", "b", "ab", "k"];
+    let nops = rng.range(4, 25);
+    for _ in 0..nops {
+        if sim.dead_case {
+            break;
+        }
+        let n = rng.below(2) as usize;
+        match rng.below(100) {
+            0..=14 => sim.set(n, *rng.pick(&keys), *rng.pick(VALUES)),
+            15..=22 => sim.delete(n, *rng.pick(&keys)),
+            23..=27 => {
+                sim.tick(*rng.pick(&[1u64, 999, 1000, 1001, dead_grace / 2 + 1, dead_grace])).await;
+            }
+            28..=34 => sim.gc(n),
+            35..=54 => {
+                let m = 1 - n;
+                if let Some(syn) = sim.syn(n) {
+                    if let Some(synack) = sim.deliver(m, &syn) {
+                        if let Some(ack) = sim.deliver(n, &synack) {
+                            sim.deliver(m, &ack);
+                        }
+                    }
+                }
+                stats.bump("op_handshake");
+            }
+            55..=59 => sim.eval(n),
+            _ => {
+                // catch-up with a supplied state that may or may not be consistent
+                let member = rng.pick(&ids).clone();
+                let nk = rng.below(4) as usize;
+                let mut kvs = Vec::new();
+                let consistent = rng.chance(1, 2);
+                let mut ver = rng.below(4);
+                for _ in 0..nk {
+                    ver += 1 + rng.below(2);
+                    let st = rng.below(3) as u8;
+                    let key = rng.pick(&keys).to_string();
+                    let val = if st == 1 { String::new() } else { rng.pick(VALUES).to_string() };
+                    kvs.push((key, val, ver, st));
+                }
+                // distinct keys only (the API takes an iterator; duplicates are legal but make
+                // versions ambiguous) — keep one entry per key
+                let mut seen = std::collections::BTreeSet::new();
+                kvs.retain(|(k, _, _, _)| seen.insert(k.clone()));
+                let (mx, gc) = if consistent {
+                    let mx = ver + rng.below(3);
+                    (mx, rng.below(mx + 1))
+                } else {
+                    (rng.below(10), rng.below(12))
+                };
+                sim.catchup(n, &member, &kvs, mx, gc);
+                stats.bump(if consistent { "catchup_consistent" } else { "catchup_arbitrary" });
+            }
         }
     }
 }
